@@ -678,11 +678,13 @@ Definition rule_code_pair_tok (st : istate) (marker : N) (silent : bool) : res (
       let ms' := if strip then ms - 1 else ms in
       do m <- iget_map st (i_pos st) me;
       let newn := mk (KCustomPair opener_len) m [] in
-      let inner := IState (i_src st1) (i_map st1) newn pos' ms' (i_cache st1) (i_link_level st1)
+      (* the skip cache is set aside for the nested call and restored afterwards (entries of the enclosing
+         range may end beyond the narrower range) *)
+      let inner := IState (i_src st1) (i_map st1) newn pos' ms' [] (i_link_level st1)
                           (i_level st1 + 1) (i_bt st1) (i_refs st1) in
       do inner' <- tokenize_rec inner;
       let st2 := IState (i_src st1) (i_map st1) (push_child (i_node st1) (i_node inner')) (i_pos inner') (i_max st1)
-                        (i_cache inner') (i_link_level inner') (i_level st1) (i_bt inner') (i_refs st1) in
+                        (i_cache st1) (i_link_level inner') (i_level st1) (i_bt inner') (i_refs st1) in
       if i_pos st2 <=? me then ret (st2, Some (me - i_pos st2)) else panic Overflow
     end
   end.
